@@ -13,7 +13,7 @@ import (
 	"verif/internal/ev"
 )
 
-// Keys draws a pool of n distinct non-empty keys in one of several shapes.
+// Keys draws a pool of n distinct keys in one of several shapes (one pool in six also holds the empty key).
 func Keys(t *rapid.T, minN, maxN int) [][]byte {
 	n := rapid.IntRange(minN, maxN).Draw(t, "nkeys")
 	shape := rapid.SampledFrom([]string{"ascii", "ascii", "binary", "prefixchain", "longprefix", "adjacent", "huge", "composite"}).Draw(t, "keyshape")
@@ -84,6 +84,12 @@ func Keys(t *rapid.T, minN, maxN int) [][]byte {
 	}
 	for i := 0; len(out) < 2; i++ { // never fewer than two keys
 		add([]byte{'q', byte('0' + i)})
+	}
+	// the zero-length key: the embedded API accepts it (put, get, delete, scan,
+	// flush and reopen work with it on the unchanged tree), so it is an input
+	if rapid.IntRange(0, 5).Draw(t, "emptykey") == 0 && !seen[""] {
+		seen[""] = true
+		out = append(out, []byte{})
 	}
 	// a fixed order (sorted) makes index order = byte order, handy for bounds
 	sort.Slice(out, func(i, j int) bool { return bytes.Compare(out[i], out[j]) < 0 })
